@@ -37,7 +37,8 @@ type c11Req struct {
 type c11Env struct {
 	firstRun bool
 	users    bool
-	https    int // 0 no HTTPS server, 1 server without force, 2 force_https
+	https    int  // 0 no HTTPS server, 1 server without force, 2 force_https
+	noAuth   bool // globalContext.auth == nil (what a start-up that survives a failed InitAuth leaves behind)
 }
 
 type c11Chain struct {
@@ -98,9 +99,12 @@ type c11World struct {
 
 func (wd *c11World) setEnv(e c11Env) {
 	globalContext.firstRun = e.firstRun
-	if e.users {
+	switch {
+	case e.noAuth:
+		globalContext.auth = nil
+	case e.users:
 		globalContext.auth = wd.auth
-	} else {
+	default:
 		globalContext.auth = wd.noUsr
 	}
 	web := &webAPI{}
@@ -130,7 +134,15 @@ func (wd *c11World) resetSessions(a *Auth, now uint32) (coq string) {
 	return c11STable(a)
 }
 
+func c11EnvCoq(e c11Env, authPresent bool, now int64, ttl uint32) string {
+	return fmt.Sprintf("{| e_first_run := %s; e_auth_present := %s; e_users := %s; e_https := %s; e_force_https := %s; e_now := %s; e_ttl := %s |}",
+		vfBool(e.firstRun), vfBool(authPresent), vfBool(e.users && authPresent), vfBool(e.https > 0), vfBool(e.https == 2), vfN(uint64(now)), vfN(uint64(ttl)))
+}
+
 func c11STable(a *Auth) string {
+	if a == nil {
+		return vfList("N * (bytes * N)", nil)
+	}
 	type row struct {
 		id int
 		s  *session
@@ -247,7 +259,12 @@ func (wd *c11World) probe(out *vfOut, c c11Chain, e c11Env, q c11Req) {
 	a := globalContext.auth
 	c12AlignSecond()
 	now := time.Now().Unix()
-	sessCoq := wd.resetSessions(a, uint32(now))
+	sessCoq, ttl := vfList("N * (bytes * N)", nil), uint32(0)
+	if a != nil {
+		sessCoq, ttl = wd.resetSessions(a, uint32(now)), a.sessionTTL
+	} else {
+		e.users = false // no Auth object: no user list either
+	}
 	ran := false
 	seenPath := ""
 	h := func(w http.ResponseWriter, r *http.Request) {
@@ -277,12 +294,11 @@ func (wd *c11World) probe(out *vfOut, c c11Chain, e c11Env, q c11Req) {
 	}
 	status := rec.Code
 	loc := c11LocClass(rec.Header().Get("Location"))
-	envCoq := fmt.Sprintf("{| e_first_run := %s; e_auth_required := %s; e_https := %s; e_force_https := %s; e_now := %s; e_ttl := %s |}",
-		vfBool(e.firstRun), vfBool(e.users), vfBool(e.https > 0), vfBool(e.https == 2), vfN(uint64(now)), vfN(uint64(a.sessionTTL)))
+	envCoq := c11EnvCoq(e, a != nil, now, ttl)
 	obs := fmt.Sprintf("{| C11.o_ran := %s; C11.o_status := %s; C11.o_loc := %s; C11.o_sess := %s |}",
 		vfBool(ran), vfZ(int64(status)), vfZ(loc), c11STable(a))
 	// the property, directly
-	authed := q.cookie >= 3 || (q.cookie == 0 && q.basic == 2)
+	authed := a != nil && (q.cookie >= 3 || (q.cookie == 0 && q.basic == 2))
 	public := c11Public(q.path)
 	guardedChain := c.wrap == nil || c.name == "version.json" || c.name == "static"
 	monOK, msg, key := true, "", ""
@@ -322,6 +338,9 @@ func (wd *c11World) probe(out *vfOut, c c11Chain, e c11Env, q c11Req) {
 	if e.firstRun {
 		classes = append(classes, "first-run")
 	}
+	if a == nil {
+		classes = append(classes, "auth-absent")
+	}
 	if e.https > 0 {
 		classes = append(classes, "https")
 	}
@@ -331,6 +350,163 @@ func (wd *c11World) probe(out *vfOut, c c11Chain, e c11Env, q c11Req) {
 		Nontrivial: !ran, MonitorOK: monOK, MonitorMsg: msg, FindingKey: key, Classes: classes,
 		Desc: map[string]any{"chain": c.name, "env": fmt.Sprintf("%+v", e), "request": fmt.Sprintf("%+v", q),
 			"status": status, "location": rec.Header().Get("Location"), "ran": ran},
+	})
+}
+
+// ---------------------------------------------------------------------------
+// Start-up: the real initUsers on a data directory whose sessions.db is in a
+// given state, assigned to globalContext.auth the way run does; when run would
+// go on (err == nil) a request goes through a real chain.
+
+var c11DBStates = []struct {
+	name  string
+	opens bool
+}{
+	{"absent", true}, {"valid", true}, {"empty-file", true},
+	{"garbage", false}, {"directory", false}, {"no-data-dir", false}, {"truncated", false}, {"garbage-short", false},
+}
+
+func (wd *c11World) boot(out *vfOut, users bool, db int, c c11Chain, q c11Req) {
+	t := wd.t
+	work := t.TempDir()
+	data := filepath.Join(work, dataDir)
+	fn := filepath.Join(data, "sessions.db")
+	mk := func() {
+		if err := os.MkdirAll(data, 0o755); err != nil {
+			t.Fatal(err)
+		}
+	}
+	valid := func() {
+		a := InitAuth(fn, nil, 60, nil, netutil.SliceSubnetSet(nil))
+		if a == nil {
+			t.Fatal("InitAuth failed while preparing a valid sessions.db")
+		}
+		a.addSession([]byte("0123456789abcdef"), &session{userName: c12User, expire: uint32(time.Now().Unix()) + 1000})
+		a.Close()
+	}
+	switch c11DBStates[db].name {
+	case "absent":
+		mk()
+	case "valid":
+		mk()
+		valid()
+	case "empty-file":
+		mk()
+		_ = os.WriteFile(fn, nil, 0o644)
+	case "garbage":
+		mk()
+		b := make([]byte, 65536)
+		for i := range b {
+			b[i] = byte(i*7 + 3)
+		}
+		_ = os.WriteFile(fn, b, 0o644)
+	case "garbage-short":
+		mk()
+		_ = os.WriteFile(fn, []byte("not a bolt database\n"), 0o644)
+	case "directory":
+		if err := os.MkdirAll(fn, 0o755); err != nil {
+			t.Fatal(err)
+		}
+	case "no-data-dir":
+	case "truncated":
+		mk()
+		valid()
+		if err := os.Truncate(fn, 5000); err != nil {
+			t.Fatal(err)
+		}
+	}
+	oldWork, oldUsers, oldAtt, oldBlk := globalContext.workDir, config.Users, config.AuthAttempts, config.AuthBlockMin
+	defer func() {
+		globalContext.workDir, config.Users, config.AuthAttempts, config.AuthBlockMin = oldWork, oldUsers, oldAtt, oldBlk
+	}()
+	globalContext.workDir = work
+	config.Users = nil
+	if users {
+		config.Users = append([]webUser{}, wd.users...)
+	}
+	config.AuthAttempts, config.AuthBlockMin = 0, 0
+
+	// home.go run: `globalContext.auth, err = initUsers(); fatalOnError(err)`
+	// (tools/routes checks that these two statements are still what run does)
+	var err error
+	globalContext.auth, err = initUsers()
+	a := globalContext.auth
+	if a != nil {
+		defer a.Close()
+	}
+	bCoq := fmt.Sprintf("{| b_users := %s; b_db_opens := %s |}", vfBool(users), vfBool(c11DBStates[db].opens))
+	classes := []string{"boot-db-" + c11DBStates[db].name}
+	desc := map[string]any{"kind": "start-up", "users_configured": users, "sessions.db": c11DBStates[db].name,
+		"initUsers_auth_nil": a == nil, "initUsers_err": fmt.Sprint(err)}
+	probeTy := "env * C11.stable * C11.chain_sel * request * C11.obs"
+	if err != nil {
+		// fatalOnError: the process exits, nothing is served
+		out.Emit(vfCase{
+			Coq:        vfApp("C11.CBoot", bCoq, vfBool(a != nil), vfBool(true), vfOpt(probeTy, false, "")),
+			Key:        vfHash("boot", users, db, c.name, q),
+			Nontrivial: true, MonitorOK: true, Classes: append(classes, "boot-fatal"), Desc: desc,
+		})
+		return
+	}
+	// run goes on to initWeb / web.start with this globalContext.auth
+	globalContext.firstRun = false
+	globalContext.web = &webAPI{}
+	c12AlignSecond()
+	now := time.Now().Unix()
+	ttl := uint32(0)
+	if a != nil {
+		ttl = a.sessionTTL
+	}
+	ran := false
+	h := func(w http.ResponseWriter, r *http.Request) { ran = true; w.WriteHeader(http.StatusOK) }
+	var hd http.Handler
+	if c.wrap != nil {
+		hd = c.wrap(h)
+	} else {
+		globalContext.mux = http.NewServeMux()
+		httpRegister(c.method, q.path, h)
+		hd = globalContext.mux
+	}
+	rec := httptest.NewRecorder()
+	req := c11Build(q)
+	panicked := any(nil)
+	func() {
+		defer func() { panicked = recover() }()
+		hd.ServeHTTP(rec, req)
+	}()
+	if time.Now().Unix() != now {
+		out.Class("discarded-second-boundary")
+		return
+	}
+	status, loc := rec.Code, c11LocClass(rec.Header().Get("Location"))
+	e := c11Env{users: users}
+	envCoq := c11EnvCoq(e, a != nil, now, ttl)
+	obs := fmt.Sprintf("{| C11.o_ran := %s; C11.o_status := %s; C11.o_loc := %s; C11.o_sess := %s |}",
+		vfBool(ran), vfZ(int64(status)), vfZ(loc), c11STable(a))
+	authed := q.cookie >= 3 || (q.cookie == 0 && q.basic == 2)
+	monOK, msg, key := true, "", ""
+	if panicked != nil {
+		monOK, msg, key = false, fmt.Sprintf("panic: %v", panicked), "c11-panic"
+	}
+	guardedChain := c.wrap == nil || c.name == "version.json" || c.name == "static"
+	if users && a == nil {
+		classes = append(classes, "boot-served-without-auth")
+	}
+	if guardedChain && users && !c11Public(q.path) && !authed && ran {
+		monOK, key = false, "c11-startup-open"
+		msg = fmt.Sprintf("users are configured, sessions.db is in state %q, initUsers returned (auth nil: %v, err: %v) so run goes on; %s %s without credentials then reached the handler behind %s",
+			c11DBStates[db].name, a == nil, err, q.method, q.path, c.name)
+	}
+	if ran {
+		classes = append(classes, "boot-ran")
+	} else {
+		classes = append(classes, "boot-refused")
+	}
+	desc["request"], desc["chain"], desc["status"], desc["ran"] = fmt.Sprintf("%+v", q), c.name, status, ran
+	probe := "(" + strings.Join([]string{envCoq, c11STable(a), c.coq, c11CoqReq(q, users && a != nil), obs}, ", ") + ")"
+	out.Emit(vfCase{
+		Coq:        vfApp("C11.CBoot", bCoq, vfBool(a != nil), vfBool(false), vfOpt(probeTy, true, probe)),
+		Nontrivial: !ran, MonitorOK: monOK, MonitorMsg: msg, FindingKey: key, Classes: append(classes, "boot-serve"), Desc: desc,
 	})
 }
 
@@ -466,7 +642,7 @@ func TestVerifC11(t *testing.T) {
 		if m == "" {
 			m = "GET"
 		}
-		for _, e := range []c11Env{normal, {users: false}, {users: true, firstRun: true}, {users: true, https: 1}, {users: true, https: 2}, {firstRun: true}} {
+		for _, e := range []c11Env{normal, {users: false}, {users: true, firstRun: true}, {users: true, https: 1}, {users: true, https: 2}, {firstRun: true}, {noAuth: true}, {noAuth: true, https: 2}} {
 			for cookie := 0; cookie < 5; cookie++ {
 				for basic := 0; basic < 3; basic++ {
 					q := c11Req{method: m, path: ctl, cookie: cookie, basic: basic}
@@ -492,11 +668,32 @@ func TestVerifC11(t *testing.T) {
 		}
 	}
 
+	// --- start-up: every state of sessions.db x users configured or not x
+	// credential shapes, behind httpRegister(POST), httpRegister(GET) and the
+	// static chain
+	for db := range c11DBStates {
+		for _, us := range []bool{true, false} {
+			for _, sh := range []c11Req{{}, {cookie: 1}, {basic: 1}, {basic: 2}} {
+				for _, ci := range []int{0, 1, len(chains) - 1} {
+					q := sh
+					q.method, q.path = "GET", ctl
+					if chains[ci].method == "POST" {
+						q.method, q.ctype, q.body = "POST", "application/json", 1
+					}
+					if ci == len(chains)-1 {
+						q.path = "/"
+					}
+					wd.boot(out, us, db, chains[ci], q)
+				}
+			}
+		}
+	}
+
 	// --- random shapes
 	n := out.Scale(1500, 12000)
 	for i := 0; i < n; i++ {
 		c := chains[rnd.Intn(len(chains))]
-		e := c11Env{users: !rnd.Chance(1, 8), firstRun: rnd.Chance(1, 10), https: vfPick(rnd, []int{0, 0, 0, 1, 2})}
+		e := c11Env{users: !rnd.Chance(1, 8), firstRun: rnd.Chance(1, 10), https: vfPick(rnd, []int{0, 0, 0, 1, 2}), noAuth: rnd.Chance(1, 25)}
 		q := c11Req{method: vfPick(rnd, methods), path: ctl, ctype: vfPick(rnd, ctypes), body: rnd.Intn(3), cookie: rnd.Intn(5),
 			basic: rnd.Intn(3), tls: rnd.Chance(1, 4), badHost: rnd.Chance(1, 20)}
 		if c.method != "" && rnd.Chance(2, 3) {
